@@ -39,6 +39,10 @@ def _pow2(n):
 
 def scalar_binop(op, a, b, lineno=None):
     c = ctx()
+    if is_sym(a):
+        a = conc(a)
+    if is_sym(b):
+        b = conc(b)
     if isinstance(a, Opaque) or isinstance(b, Opaque):
         raise Unsupported("arithmetic on opaque value")
     if isinstance(a, str) or isinstance(b, str):
@@ -265,6 +269,24 @@ def array_binop(op, a, b, lineno=None):
         return elementwise(lambda x, y: scalar_binop(op, B(x), B(y), lineno), a, b, "bool", lineno)
     if op in ("BitAnd", "RShift") and not is_arr(b):
         return elementwise(lambda x, y: _bit_noassert(op, x, y), a, b, "int", lineno)
+    if op == "Pow":
+        # base ** (array of concrete length): tabulate (the exponent of each element is a literal)
+        arr = b if isinstance(b, SArr) else a
+        n = conc(arr.length)
+        if isinstance(arr, SArr) and isinstance(n, int) and n <= 64:
+            fa = a.snapshot() if isinstance(a, SArr) else (lambda i: a)
+            fb = b.snapshot() if isinstance(b, SArr) else (lambda i: b)
+            vals = [scalar_binop("Pow", conc(fa(i)), conc(fb(i)), lineno) for i in range(n)]
+
+            def at(i, vals=vals, n=n):
+                ci = conc(i)
+                if isinstance(ci, int):
+                    return vals[ci] if 0 <= ci < n else 0
+                r = I(vals[-1]) if n else z3.IntVal(0)
+                for j in range(n - 2, -1, -1):
+                    r = z3.If(I(i) == j, I(vals[j]), r)
+                return r
+            return SArr.fresh(n, at, "int")
     u8 = getattr(a, "dtype", None) == "uint8" or getattr(b, "dtype", None) == "uint8"
     if u8 and op in ("Add", "Sub", "Mult") and all(is_arr(x) or isinstance(x, int) for x in (a, b)):
         # NumPy (NEP 50): uint8 array op python-int / uint8 array stays uint8 and wraps modulo 256
